@@ -57,9 +57,10 @@ def worker(ck: Check, job):
     name = 'en:o@%d:thr=%s' % (p, thr)
     outs = {}
     bad = []
+    cov = []
     for label, txt in (('as-is', T), ('zero', Tz), ('plain', Tp)):
         ex = text_executor(ck, assm)
-        outs[label] = merged_occs(text_find(ex, L, txt, thr))
+        outs[label] = merged_occs(text_find(ex, L, txt, thr), cov)
         ck.absorb(ex)
         bad += [('panic (%s): %s %s at %s' % (label, p_.kind, p_.msg, p_.where), c) for p_, c in zip(ex.panics, conds_of(ex.panics))]
     bad.append(("'o' next to a number word is not treated like 'zero'", z3.And(N, z3.Not(occs_equal(outs['as-is'], outs['zero'])))))
@@ -83,7 +84,7 @@ def worker(ck: Check, job):
         return {'key': {'lang': 'en', 'kind': 'non-ascii-whitespace-neighbour' if nonascii else 'o-rule'}, 'reproduced': differs,
                 'replay': rep, 'what': "en thr=%s: %r gives %r but %r gives %r (number-word neighbour: %s)" % (
                     thr, t, key(r['as-is']), rep['compared_with'], key(r[other]), n_holds)}
-    ck.prove_none(name, assm, bad, on_cex, lambda m, c: None)
+    ck.prove_none(name, assm, guard(cov, bad), on_cex, lambda m, c: None)
     ck.cover(name + ':o-is-zero', assm + [N, z3.UGE(B64(outs['as-is'].len), 1)], lambda m: {'text': concrete_text(T, m)[0]})
     ck.cover(name + ':o-is-word', assm + [z3.Not(N)], lambda m: {'text': concrete_text(T, m)[0]})
     ck.bounds['text_words'] = k
